@@ -61,8 +61,13 @@ def run(m):
         os.unlink(dst)
         open(dst, 'w', encoding='latin-1').write('\n'.join(L))
         env = dict(os.environ, VERIF_REPO=tmp, VERIF_EVIDENCE_DIR=os.path.join(tmp, 'ev'))
-        p = subprocess.run([os.path.join(VERIF, 'check'), a.pid], env=env, stdout=subprocess.PIPE, stderr=subprocess.STDOUT)
-        return (m, p.returncode)
+        rcs = []
+        for pid in a.pid.split(','):
+            p = subprocess.run([os.path.join(VERIF, 'check'), pid], env=env, stdout=subprocess.PIPE, stderr=subprocess.STDOUT)
+            rcs.append(p.returncode)
+            if p.returncode == 1:
+                break
+        return (m, 1 if 1 in rcs else (2 if all(r == 2 for r in rcs) else 0))
     finally:
         shutil.rmtree(tmp, ignore_errors=True)
 
